@@ -525,33 +525,35 @@ class InvariantMonitor(Monitor):
         self.n_checks += 1
         # C10: a backward message is answered by a poll of that job (unless
         # the task has meanwhile left the pool or gone back to waiting,
-        # which poll_task_jobs skips); the poll command may queue behind
-        # others in the process pool, hence the generous bound
-        keep = []
+        # which poll_task_jobs skips): by the end of the iteration that
+        # handled the message the jobs-poll command has run, is running or
+        # waits in the process pool's queue
+        def _poll_pending(ident):
+            pp = schd.proc_pool
+            ctxs = [q[0] for q in getattr(pp, 'queuings', [])] + [
+                r[1] for r in getattr(pp, 'runnings', [])]
+            for ctx in ctxs:
+                cmd = getattr(ctx, 'cmd', None) or []
+                if getattr(ctx, 'cmd_key', None) == 'jobs-poll' and any(
+                        str(a_).startswith(ident + '/') for a_ in cmd):
+                    return True
+            return False
         for e in getattr(self, 'poll_expected', []):
-            ident, idx, since, msg, owner = e
+            ident, idx, _since, msg, owner = e
             if owner != id(schd.task_events_mgr):
                 continue        # registered before a restart
             if any(jd.startswith(ident + '/')
-                   for _t, jds in self.res.world.poll_log[idx:] for jd in jds):
+                   for _t, jds in self.res.world.poll_log[idx:] for jd in jds
+                   ) or _poll_pending(ident):
                 self.res.sim.probe('backward_message_polled')
                 continue
-            if since is None:
-                live = [i for i in pool.get_tasks() if i.identity == ident]
-                if not live or live[0].state.status == 'waiting' or (
-                        schd.stop_mode is not None):
-                    continue
-                e[2] = h.iterations
-                keep.append(e)
-            elif schd.stop_mode is not None:
+            live = [i for i in pool.get_tasks() if i.identity == ident]
+            if not live or live[0].state.status == 'waiting' or (
+                    schd.stop_mode is not None):
                 continue
-            elif h.iterations - since > 12:
-                self.v('C10', 'backward_message_not_followed_by_poll', {
-                    'task': ident, 'message': msg,
-                    'iterations_waited': h.iterations - since})
-            else:
-                keep.append(e)
-        self.poll_expected = keep
+            self.v('C10', 'backward_message_not_followed_by_poll', {
+                'task': ident, 'message': msg})
+        self.poll_expected = []
         # C26: internal consistency
         flat = [i for m in pool.active_tasks.values() for i in m.values()]
         cached = pool.get_tasks()
